@@ -345,6 +345,9 @@ def ref_decode(p):
     m = Msg(mid, bool(flags & 0x8000), bool(flags & 0x0200))
     if bool(flags & 0x8000) != bool(flags & 0x0400):
         raise Strict("QR and AA disagree")
+    if flags & ~0x8600 & 0xffff:
+        # RFC 6762 section 18: opcode, RD, RA, Z, AD, CD and RCODE are zero on transmission
+        raise Strict("header flag bits other than QR, AA, TC are set (0x%04x)" % flags)
     for _ in range(nq):
         n = name()
         t, c = u16(), u16()
